@@ -189,6 +189,7 @@ pub fn prop_c06(lines: &[String]) -> String {
 pub fn dispatch_impl(toks: &[&str]) -> Option<String> {
     match toks {
         ["dec", hex] => Some(dec(&unhex(hex))),
+        ["decshift", _k, a, b] => Some(format!("{} ## {}", dec(&unhex(a)), dec(&unhex(b)))),
         ["dec9", hex] => Some(dec9(&unhex(hex)).into_iter().map(|(n, d)| format!("{n}={d}")).collect::<Vec<_>>().join(" ## ")),
         _ => None,
     }
